@@ -205,6 +205,7 @@ impl World {
             self.rng.bytes(n)
         };
         self.log(json!({"op":"propose","by":by,"what":what.describe()}));
+        self.last_aad = aad.clone();
         let r = match what {
             PropKind::Add(kp) => {
                 let kp = kp.clone();
@@ -397,6 +398,7 @@ impl World {
         let (winner, out, plan) = built.swap_remove(widx);
         let losers: Vec<usize> = built.iter().map(|b| b.0).collect();
         self.log(json!({"op":"winner","who":winner,"racers":racers}));
+        self.cur_commit = Some((winner, plan.aad.clone()));
         hooks.on_message(self, "commit", winner, &out.commit_message);
         for w in &out.welcome_messages {
             hooks.on_message(self, "welcome", winner, w);
